@@ -260,8 +260,8 @@ func init() {
 			}
 			jobs := []Job{
 				{Pkg: "root", Func: "VerifC08DecodeName", Args: []int64{pick(6, 8)}, SplitN: int(pick(7, 9)), Cfg: ci(64, 1200)},
-				{Pkg: "root", Func: "VerifC08NDPOptions", Args: []int64{pick(16, 24)}, Cfg: cfg(64, int(pick(400, 1500))), Reach: r},
-				{Pkg: "root", Func: "VerifC08HopByHop", Args: []int64{pick(14, 18)}, Cfg: cfg(64, 900), Reach: r},
+				{Pkg: "root", Func: "VerifC08NDPOptions", Args: []int64{pick(16, 23)}, Cfg: cfg(64, int(pick(400, 1500))), Reach: r},
+				{Pkg: "root", Func: "VerifC08HopByHop", Args: []int64{pick(14, 17)}, Cfg: cfg(64, 900), Reach: r},
 				{Pkg: "root", Func: "VerifC08LLDP", Args: []int64{pick(12, 16)}, Cfg: cfg(64, 900), Reach: r},
 				{Pkg: "root", Func: "VerifC08DHCPOptions", Args: []int64{pick(246, 248)}, Cfg: cfg(300, 900), Reach: r},
 				{Pkg: "root", Func: "VerifC08_8023", Args: []int64{40}, Cfg: cfg(64, 900), Reach: r},
@@ -283,8 +283,8 @@ func init() {
 			return map[string]string{
 				"decodeName":             "arbitrary buffers of length 0.." + s("6", "8") + " (one job per length), arbitrary offset, any capacity; pointer chains to the code's own recursion limit (255)",
 				"DNS question + answers": "three message templates (label / pointer question names, one or two answers, rdata with a nested label+pointer) in which " + s("each single field", "each single field and every pair of fields") + " among ANCount, label lengths, pointer targets, record type, RDLENGTH, first rdata byte is arbitrary, truncated at every offset",
-				"NDP options":            "arbitrary option bytes of length 0.." + s("16", "24"),
-				"hop-by-hop, LLDP TLVs":  "arbitrary bytes of length 0.." + s("14 / 12", "18 / 16"),
+				"NDP options":            "arbitrary option bytes of length 0.." + s("16", "23"),
+				"hop-by-hop, LLDP TLVs":  "arbitrary bytes of length 0.." + s("14 / 12", "17 / 16"),
 				"DHCP options":           "240-byte header + 0.." + s("6", "8") + " arbitrary option bytes",
 				"802.3/LLC":              "frames accepted by Parse as 802.3, length 14..40",
 				"loop unwinding":         "64 iterations; non-termination decided by a loop-state repetition query",
